@@ -4,6 +4,7 @@ import EpdVerif.Drivers.Epd2in7
 import EpdVerif.Drivers.Epd4in2
 import EpdVerif.Drivers.Epd1in54
 import EpdVerif.Drivers.Epd2in9
+import EpdVerif.Drivers.Epd2in7_v2
 /-!
 # C07 per panel: `clear_frame` for EVERY background colour from ANY controller state (session 4)
 
@@ -12,7 +13,7 @@ exactly one block of the plane's size, whatever the planes held before (from `dt
 Per panel the program's block list is obtained for a symbolic driver state (`rfl`), so the
 statement holds for every background colour, not for the sampled ones: epd2in7, epd4in2 (UC81xx)
 and — from ANY awake controller state in data-entry mode 3, whatever window and counters an earlier
-partial update left — epd1in54, epd2in9 (SSD16xx, `ssd_window_then_fill`).
+partial update left — epd1in54, epd2in9, epd2in7_v2 (SSD16xx, `ssd_window_then_fill`).
 The drivers with listed C07 findings cannot have such a theorem; the remaining drivers are
 decided by the oracle on every colour × history class.
 -/
@@ -228,5 +229,38 @@ theorem epd2in9_clear_uniform (f : Feat) (d : DState) (s : Ssd) (hu : s.asleep =
   rw [e1, Nat.zero_add, Nat.zero_add] at this
   exact this
 
+
+open Drivers.Epd2in7_v2 in
+theorem epd2in7_v2_clear_blocks (f : Feat) (d : DState) :
+    blocksOf ((prog f d .clear).getD []) =
+      [.c 0x44 [0, 21], .c 0x45 [0, 0, 7, 1], .c 0x4E [0], .c 0x4F [0, 0],
+       .c 0x24 (List.replicate (Gen.Epd2in7_v2.WIDTH / 8 * Gen.Epd2in7_v2.HEIGHT) (byteValue d.bg) ++ [])] := rfl
+
+open Drivers.Epd2in7_v2 in
+/-- **epd2in7_v2 `clear_frame`, every background colour, ANY awake controller state in data-entry mode 3** -/
+theorem epd2in7_v2_clear_uniform (f : Feat) (d : DState) (s : Ssd) (hu : s.asleep = false) (hxp : s.xPix = false)
+    (h3 : s.entry = 3) (hst : s.stride = 22) (hro : s.rows = 296) (hbw : s.bw.size = 22 * 296) (hred : s.red.size = 22 * 296) :
+    let s' := s.run (blocksOf ((prog f d .clear).getD []))
+    (∀ k, k < 5808 → s'.bw[(k / 22) * 22 + k % 22]? = some (byteValue d.bg)) ∧ s'.red = s.red ∧
+    (s'.epis.head?.map fun e => (e.plane, e.count, e.stored)) = some (0, 5808, 5808) := by
+  intro s'
+  have e : Gen.Epd2in7_v2.WIDTH / 8 * Gen.Epd2in7_v2.HEIGHT = 5808 := by decide
+  have hs' : s' = s.run [Blk.c 0x44 [0, 21], .c 0x45 [0, 0, 7, 1], .c 0x4E [0], .c 0x4F [0, 0],
+      .c 0x24 (List.replicate 5808 (byteValue d.bg))] := by
+    show s.run _ = _
+    rw [epd2in7_v2_clear_blocks, List.append_nil, e]
+  have a1 : (0 : UInt8).toNat % 64 = 0 := by decide
+  have a2 : (21 : UInt8).toNat % 64 = 21 := by decide
+  have a3 : Ssd.word 0 0 % 1024 = 0 := by decide
+  have a4 : Ssd.word 7 1 % 1024 = 263 := by decide
+  have k := ssd_window_then_fill s 0 21 0 0 7 1 (byteValue d.bg) 5808 hu hxp h3
+    (by rw [hst, hro]; exact hbw) (by rw [hst, hro]; exact hred) (by rw [a1, a2]; omega) (by rw [a3, a4]; omega)
+    (by rw [a2, hst]; omega) (by rw [a4, hro]; omega) (by rw [a1, a2, a3, a4]) s' hs'
+  rw [a1, a2, a3, hst] at k
+  refine ⟨fun k' hk' => ?_, k.2.1, k.2.2⟩
+  have := k.1 k' hk'
+  have e1 : 21 - 0 + 1 = 22 := rfl
+  rw [e1, Nat.zero_add, Nat.zero_add] at this
+  exact this
 
 end EpdVerif.Props.C07
